@@ -415,18 +415,42 @@ Fixpoint order_loop (fr : list tbl) (order : option string) (acc : list (term * 
 Definition base_tables (fr : list tbl) (upd : option tbl) (w : list (string * term)) : list (option tbl) :=
   map Some fr ++ [upd] ++ map (fun x => Some (Wq (fst x))) w.
 
-(* JoinOn.validate: criterion_tables - (set(base_tables) | {join.item ...} | {self.item}) - {None} is empty *)
+(* JoinOn.validate: criterion_tables - (set(base_tables) | {join.item ...} | {self.item}) - {None} holds no Table /
+   sub-query; references to WITH queries (AliasedQuery) are left to the render-time check _validate_with_references,
+   which is a function of the final state *)
 Definition join_valid (bt : list (option tbl)) (joins : list join) (item : tbl) (tabs : list (option tbl)) : bool :=
   forallb (fun ft =>
              match ft with
              | None => true
+             | Some (Wq _) => true
              | Some _ => omem ft bt || omem ft (map (fun j => Some (join_item j)) joins) || otbl_eqb ft (Some item)
              end) tabs.
 
-(* do_join's  join.item.alias = join.item._table_name + "2" *)
-Definition auto_alias (bt : list (option tbl)) (item : tbl) : tbl :=
+(* do_join: the first numbered name  <table name><k>, k = 2, 3, ...  that no source of the query carries
+   (taken = alias-or-name of base_tables + join items).  Only names that start with the table name can collide, so the
+   search looks at those; it needs at most one step more than there are such names. *)
+Definition src_name (t : option tbl) : list string :=
+  match t with
+  | Some (Tab n a) => [match a with Some x => x | None => n end]
+  | Some (Wq n) => [n]
+  | Some (Sub (Some a) _) => [a]
+  | _ => []
+  end.
+Definition taken_names (bt : list (option tbl)) (joins : list join) : list string :=
+  flat_map src_name (bt ++ map (fun j => Some (join_item j)) joins).
+Fixpoint first_free_from (name : string) (rel : list string) (fuel : nat) (k : Z) : Z :=
+  match fuel with
+  | O => k
+  | S f => if smem_str (name ++ Z_to_string k)%string rel then first_free_from name rel f (k + 1) else k
+  end.
+Definition first_free (name : string) (taken : list string) : Z :=
+  let rel := filter (String.prefix name) taken in first_free_from name rel (S (List.length rel)) 2.
+Definition auto_alias (bt : list (option tbl)) (joins : list join) (item : tbl) : tbl :=
   match item with
-  | Tab n None => if omem (Some item) bt then Tab n (Some (n ++ "2")%string) else item
+  | Tab n None =>
+      if omem (Some item) bt
+      then Tab n (Some (n ++ Z_to_string (first_free n (taken_names bt joins)))%string)
+      else item
   | _ => item
   end.
 
@@ -452,12 +476,12 @@ Definition step_join (fr : list tbl) (upd : option tbl) (w : list (string * term
   | JSOnNone => Err "JoinException"
   | JSOn crit collate =>
       if join_valid bt joins item1 (map (retag item item1) (find_tables crit))
-      then Ok (joins ++ [JOn (auto_alias bt item1) how crit collate], cnt1)
+      then Ok (joins ++ [JOn (auto_alias bt joins item1) how crit collate], cnt1)
       else Err "JoinException"
   | JSUsing names =>
       if is_nil names then Err "JoinException"
-      else Ok (joins ++ [JUsing (auto_alias bt item1) how names], cnt1)
-  | JSCross => Ok (joins ++ [JCross (auto_alias bt item1)], cnt1)
+      else Ok (joins ++ [JUsing (auto_alias bt joins item1) how names], cnt1)
+  | JSCross => Ok (joins ++ [JCross (auto_alias bt joins item1)], cnt1)
   end.
 
 (* ---- columns / insert ---------------------------------------------------------------------- *)
@@ -476,6 +500,9 @@ Definition step (s : qstate) (c : call) : res qstate :=
   | CUpdate t =>
       bind (step_update (q_update_table s) (q_selects s) t) (fun u => Ok (set_update_table u s))
   | CSelect items =>
+      (* the pre-check: no FROM and a string term: rejected before anything is selected *)
+      if is_nil (q_from s) && existsb (fun i => match i with SStr _ => true | _ => false end) items
+      then Err "QueryException" else
       bind (select_loop (q_from s) (q_selects s, q_select_star s, q_select_star_tables s) items)
            (fun r => Ok (set_select_star_tables (snd r) (set_select_star (snd (fst r)) (set_selects (fst (fst r)) s))))
   | CJoin item how spec =>
@@ -581,7 +608,7 @@ Definition special (k1 k2 : kind) : bool :=
   | KWhere, KPrewhere | KPrewhere, KWhere       (* both or into _foreign_table *)
   | KWhere, KJoin | KJoin, KWhere               (* _validate_table reads _joins *)
   | KPrewhere, KJoin | KJoin, KPrewhere
-  | KWith, KJoin | KJoin, KWith => true         (* JoinOn.validate reads _with: holds on the fragment only *)
+  | KWith, KJoin | KJoin, KWith => true         (* do_join's automatic alias reads _with: holds on the fragment only *)
   | _, _ => false
   end.
 Definition footprint_table : bool :=
@@ -604,10 +631,11 @@ Definition equiv (a b : qstate) : Prop :=
 Definition render {T} (R : bool -> qstate -> T) (s : qstate) : T :=
   R (with_namespace_of s) (set_foreign_table false s).
 
-(* ---- the fragment: no join criterion mentions the name of a WITH query added in the same list - *)
+(* ---- the fragment: no WITH query added in the list has a name that starts with the name of an un-aliased table
+   joined in the list (such a name can be one of the candidates  <table><k>  of do_join's automatic alias) ---------- *)
 Definition compat (c1 c2 : call) : bool :=
   match c1, c2 with
-  | CJoin _ _ (JSOn crit _), CWith name _ => negb (omem (Some (Wq name)) (find_tables crit))
+  | CJoin (Tab m None) _ _, CWith name _ => negb (String.prefix m name)
   | _, _ => true
   end.
 Definition fragment (l : list call) : Prop := forall c1 c2, In c1 l -> In c2 l -> compat c1 c2 = true.
